@@ -298,7 +298,7 @@ def exc_class(e):
     for nm_, tag in (('XMLResourceBlocked', 'resource-blocked'),
                      ('XMLResourceForbidden', 'resource-forbidden'),
                      ('XMLResourceExceeded', 'resource-exceeded')):
-        cls = getattr(xmlschema, nm_, None)
+        cls = getattr(xmlschema, nm_, None) or getattr(xmlschema.exceptions, nm_, None)
         if cls is not None and isinstance(e, cls):
             return tag
     mod_err = getattr(xmlschema.validators.exceptions, 'XMLSchemaModelError', None)
